@@ -37,6 +37,15 @@ CHECKS = {
              "firing before/after every data arrival, completion and disconnect; replayed under the virtual clock on the real "
              "protocol (a pending loop timer is the observable, no private attribute is read).",
         note="Trusted: as C01; virtual-time loop replaces only the clock and the blocking wait of asyncio's SelectorEventLoop."),
+    "C10": dict(
+        engine="RateLimit", design="8 C10, 5.3, Appendix C",
+        text="TLC checks CleanupInvisible/SameDecision/Window (invariants) and Isolation (action property) over every arrival "
+             "sequence on a 4 s grid crossing several clean-up wake-ups, including slow refills whose capacity/rate exceeds the "
+             "idle-eviction age; behaviours sampled by tlc -simulate are executed on the real RateLimiter under a virtual clock "
+             "with its own clean-up task running (decision, 44 text and every address's level compared); long random runs with "
+             "gathered concurrent calls are validated by TLC against the trace spec; non-conforming runs are judged by the "
+             "observation spec.",
+        note="Trusted: TLC; exactness of float arithmetic on the dyadic grid used; the virtual clock patch of time.monotonic."),
 }
 
 ORDER = ["C01", "C02", "C03", "C04", "C05", "C06", "C07", "C08", "C09", "C10", "C11", "C12", "C13", "C14", "C15",
